@@ -15,7 +15,15 @@ CONSTANTS MaxTokens, MaxDepth,
           Keys          \* indices into KeyCat
 
 ScalarCat == << "0", "-0", "12", "-3.25", "0.10", "1.50", "true", "false", "null", "\"\"", "\"a\"",
-                "\"q\\\"b\\\\s\\/\"", "\"\\b\\f\\n\\r\\t\"", "\"\\u00e9\\u0041\"", "\"\\ud83d\\ude00\"", "\"<NONASCII-1>\"", "\"a.b\"", "\"1e5\"", "\"// {x}\"", "\"@t\"", "\"\\u001f\\u0010\\u0000\"" >>
+                "\"q\\\"b\\\\s\\/\"", "\"\\b\\f\\n\\r\\t\"", "\"\\u00e9\\u0041\"", "\"\\ud83d\\ude00\"", "\"<NONASCII-1>\"", "\"a.b\"", "\"1e5\"", "\"// {x}\"", "\"@t\"", "\"\\u001f\\u0010\\u0000\"",
+                \* 22..: numbers at the edges of the machine word sizes, long digit strings, spellings of zero and one
+                "18446744073709551615", "18446744073709551616", "-18446744073709551616", "9223372036854775807",
+                "9223372036854775808", "-9223372036854775808", "-9223372036854775809", "4294967296", "-2147483649",
+                "99999999999999999999", "123456789012345678901234567890", "0.000000000000000000001",
+                "3.141592653589793238462643383279", "-0.0", "0.0", "1.0", "100", "-1", "1.7976931348623157",
+                \* 41..: strings made of escapes only, a long string
+                "\"\\\\\"", "\"\\\\\\\\\"", "\"\\\"\"", "\"\\/\"", "\"\\u005c\"",
+                "\"Lorem ipsum dolor sit amet, consectetur adipiscing elit, sed do eiusmod tempor incididunt ut labore et dolore magna aliqua\"" >>
 KeyCat    == << "\"a\"", "\"b\"", "\"\"", "\"a\\\"b\"", "\"a\\\\b\"", "\"a\\nb\"", "\"k\\u00e9\"", "\"<NONASCII-2>\"", "\"a b\"", "\"@k\"", "\"a/b\"", "\"k\\u001fz\"", "\"\\u0001\\b\\f\"" >>
 
 VARIABLES stk,     \* open containers: records [k |-> "o"|"a", n |-> members so far, used |-> keys used]
